@@ -74,6 +74,9 @@ pub fn run_burst(focus: &'static str, seed: u64, index: u64) -> CaseOut {
     sched().release_all();
     sched().set_random(rng.next(), 0, slow.0, slow.1);
     sched().quiet_mask.store(only_sites(&[Site::WorkerDequeued, Site::WorkerBeforeAck]), Ordering::SeqCst);
+    // expiring bursts: the sweeper lingers (holding its shard) before each of its first evictions, so that the worker's deletes of
+    // time-to-live keys land inside a sweep
+    if index % 2 == 1 { sched().force_delay(Site::SweepBeforeEvict, 200 + rng.below(400), 60); }
     let panic_mark = rt::panic_count();
     let sut = Sut::new(sutcfg);
     let keys = rng.range(2, 6);
@@ -592,6 +595,15 @@ pub fn run_stall(focus: &'static str, seed: u64, index: u64) -> CaseOut {
             }
             if sut.background_exits().is_empty() && sut.applied() != added {
                 fail(&mut findings, &["C15"], format!("C15/applied-differs-from-added/variant={}", variant), format!("the sketch received {} access records but AccessAdded is {}", sut.applied(), added), case.clone());
+            }
+            if sut.background_exits().is_empty() {
+                let counters = sut.cfg.counters.max(1);
+                let position = sut.cache.verif_sketch_total_increments();
+                if position != sut.applied() % counters {
+                    fail(&mut findings, &["C15", "C14"], "C15/delivered-records-missing-from-the-sketch-window".into(),
+                         format!("{} access records were handed to the sketch ({} counters per window) but it stands at position {} of its window instead of {}", sut.applied(), counters, position, sut.applied() % counters), case.clone());
+                }
+                if sut.applied() > counters { counts.inc("sketch_windows_restarted_with_records_accounted"); }
             }
             counts.inc("quiescent_identity_checks");
         }
